@@ -108,6 +108,9 @@ def run(ctx):
                                 viol(f"{window}/defining-integral", f"{window}.sigma(order={order}) on {sname} differs from an independent quadrature by {float(np.max(np.abs(s[ok_r] / ref - 1))):.3g}",
                                      {"window": window, "spectrum": sname, "order": order, "R": radii[ok_r].tolist()})
                     s0 = f.sigma(radii)
+                    ri_ = np.array([1, 3, 9])
+                    if not np.allclose(f.sigma(ri_), f.sigma(ri_.astype(float)), rtol=1e-12):
+                        viol(f"{window}/integer-radii", f"{window}.sigma differs between integer-typed and float radii {ri_.tolist()}", {"radii": ri_.tolist()})
                     a = r.uniform(0.1, 7.0)
                     if not np.allclose(getattr(filters, window)(k, a * P).sigma(radii), np.sqrt(a) * s0, rtol=1e-12):
                         viol(f"{window}/scaling", f"{window}.sigma does not scale as sqrt(a) when P is multiplied by a={a:.3f}")
@@ -141,6 +144,12 @@ def run(ctx):
                     if not np.allclose(sd_, s[::-1], rtol=2e-3):
                         viol("SharpK/row-local/order-changes-values", f"SharpK.sigma on a descending radius array is not the ascending result reversed (max rel dev {float(np.max(np.abs(sd_ / s[::-1] - 1))):.3g} on {sname})",
                              {"radii": radii[::-1].tolist(), "spectrum": sname})
+                    # integer-typed radii (Python int, integer arrays) are radii too
+                    ri = np.array([1, 2, 8])
+                    si, sf = f.sigma(ri), f.sigma(ri.astype(float))
+                    s1i = np.atleast_1d(f.sigma(2))
+                    if not (np.allclose(si, sf, rtol=2e-3) and np.allclose(s1i, f.sigma(2.0), rtol=2e-3)):
+                        viol("SharpK/integer-radii", f"SharpK.sigma for integer-typed radii {ri.tolist()} gives {np.asarray(si).tolist()}, for the same radii as floats {np.asarray(sf).tolist()}", {"radii": ri.tolist(), "spectrum": sname})
                     g = cls(k, 3.0 * P, **cpar)
                     if not np.allclose(g.sigma(radii), np.sqrt(3.0) * s, rtol=1e-9):
                         viol("SharpK/scaling-or-shared-table", "a second SharpK instance built with 3 x P does not return sqrt(3) x sigma (scaling fails or instances share a table)")
